@@ -91,3 +91,141 @@ Example C01_example_reject_lf_in_target :
   parse_request [] [[71;69;84;32;47;97;10;98;32;72;84;84;80;47;49;46;49]; [72;111;115;116;58;32;120]] = PErr EInvalidUrl.
 Proof. vm_compute. reflexivity. Qed.
 Print Assumptions C01_example_reject_lf_in_target.
+
+(* ================================================================================================
+   The incremental parser refines the strict whole-stream reading of RFC 9112 request framing
+   (Model/HttpSpec.v: spec, take_block, dechunk, spans).  Proofs: Proofs/HttpSpecRefine*.v, built on
+   the C03 loop machinery.  All theorems are for ALL limits, oracles and byte streams; no "limits
+   not hit" assumption (the strict reading checks the same limits).
+   Vocabulary (Proofs/HttpSpecRefinePart.v, HttpSpecRefine.v):
+     crlfs k            k CRLF pairs
+     weave ks spans     crlfs k1 ++ span1 ++ crlfs k2 ++ span2 ++ ...   (the explicit reconstruction)
+     msg_match sm r     the delivered record r is the spec message sm: same head (method, target,
+                        version, headers, close/compression/upgrade/chunked flags), same body bytes,
+                        same chunk ends, end-of-stream set, no exception
+     delivered ms a     the delivered records, oldest first, match ms one by one
+     delivered_upto ms a  the same, plus possibly one newer message whose body is still in progress
+     early e            e is BadHttpMessage, LineTooLong or TransferEncodingError
+   ================================================================================================ *)
+From AV Require Import Model.HttpSpec Proofs.HttpSeg Proofs.HttpSegEx Proofs.HttpSpecRefinePart
+  Proofs.HttpSpecRefineBase Proofs.HttpSpecRefine Proofs.HttpSpecRefineEx.
+
+(* Every byte of the stream belongs to exactly one place: the stream IS the leading / separating
+   CRLF pairs and the message spans woven in order, followed by what the verdict leaves over
+   (nothing but CRLFs when accepted; the bytes handed to the new protocol when upgraded; the
+   incomplete message; the rejected remainder).  Spans are non-empty, so they are disjoint. *)
+Theorem C01_spec_partition : forall lim o s,
+  match spec lim o s with
+  | SAccept ms _ => exists ks k, length ks = length ms /\ s = weave ks (map s_span ms) ++ crlfs k
+  | SUpgraded ms rest => exists ks, length ks = length ms /\ s = weave ks (map s_span ms) ++ rest
+  | SIncomplete ms rest => exists ks k, length ks = length ms /\ s = weave ks (map s_span ms) ++ crlfs k ++ rest
+  | SReject ms _ => exists ks rest, length ks = length ms /\ s = weave ks (map s_span ms) ++ rest
+  | SAsk _ _ => True
+  end /\
+  match spec lim o s with
+  | SAccept ms _ | SUpgraded ms _ | SIncomplete ms _ | SReject ms _ => Forall (fun sm => s_span sm <> []) ms
+  | SAsk _ _ => True
+  end.
+Proof. exact spec_partition. Qed.
+Print Assumptions C01_spec_partition.
+
+Example C01_spec_partition_example :
+  match spec limq [] st_two with
+  | SAccept ms _ => st_two = weave [1%nat; 2%nat] (map s_span ms) ++ crlfs 1 /\
+                    map (@length N) (map s_span ms) = [106%nat; 28%nat]
+  | _ => False
+  end.
+Proof. exact ex_partition. Qed.
+Print Assumptions C01_spec_partition_example.
+
+(* One read of the whole stream against the strict reading (max_queue = 0: the message queue limit
+   of the server protocol is not part of framing).
+   - accepted: normal return, parser idle, exactly the spec's messages delivered;
+   - upgraded: the spec's messages delivered and the rest returned unconsumed - or, for CONNECT,
+     fed to the tunnel payload of the last message;
+   - incomplete: normal return, or an EARLY rejection (the parser checks each line as it arrives:
+     bare LF in a partial line, partial or complete line over its limit, more lines than
+     max_headers / trailers, a line after a message that closes - C01_refines_spec_incomplete_example
+     shows each); the spec's messages are delivered, plus possibly the head of the one in progress;
+   - rejected: an exception; its class is the spec's, except that the spec may say LineTooLong where
+     the parser already raised BadHttpMessage for the line count (C01_refines_spec_class_example);
+   - oracle question: the same question. *)
+Theorem C01_refines_spec : forall lim o s, max_queue lim = 0 ->
+  let '(st, a, r) := feed lim o init s [] in
+  match spec lim o s with
+  | SAccept ms _ => r = ROk [] /\ idle st /\ delivered ms a
+  | SUpgraded ms rest =>
+    (r = ROk rest /\ upgraded st = true /\ payload st = None /\ delivered ms a) \/
+    (r = ROk [] /\ exists p cur old pre last,
+        payload st = Some p /\ pk p = PUntilEof /\ a = cur :: old /\ ms = pre ++ [last] /\
+        delivered pre old /\ r_msg cur = s_msg last /\ r_data cur = rest /\
+        r_eof cur = false /\ r_exc cur = None)
+  | SIncomplete ms _ => (r = ROk [] \/ exists e, r = RErr e /\ early e) /\ delivered_upto ms a
+  | SReject ms e =>
+    exists e', r = RErr e' /\ (e' = e \/ (e = ELineTooLong /\ e' = EBadMessage)) /\ delivered_upto ms a
+  | SAsk c t => r = RAsk c t
+  end.
+Proof. exact (fun lim o s Hq => refines_spec lim o Hq s). Qed.
+Print Assumptions C01_refines_spec.
+
+(* the class is equal whenever the strict reading does not say LineTooLong *)
+Theorem C01_refines_spec_reject_class : forall lim o s ms e, max_queue lim = 0 ->
+  spec lim o s = SReject ms e -> e <> ELineTooLong ->
+  exists st a, feed lim o init s [] = (st, a, RErr e) /\ delivered_upto ms a.
+Proof. exact refines_spec_reject_class. Qed.
+Print Assumptions C01_refines_spec_reject_class.
+
+Example C01_refines_spec_example :
+  sdigest (spec limq [] st_two) =
+    (0, [([80; 79; 83; 84], [47; 97], body26, [26], 106%nat); ([71; 69; 84], [47; 98], [], [], 28%nat)], [], None) /\
+  digest (feed limq [] init st_two []) =
+    (ROk [], [([71; 69; 84], [47; 98], [], [], true, None); ([80; 79; 83; 84], [47; 97], body26, [26], true, None)]).
+Proof. exact ex_refines. Qed.
+Print Assumptions C01_refines_spec_example.
+
+Example C01_refines_spec_class_example :
+  sdigest (spec lim_cls [] st_cls) = (3, [], [], Some ELineTooLong) /\
+  digest (feed lim_cls [] init st_cls []) = (RErr EBadMessage, []).
+Proof. exact ex_class_differs. Qed.
+Print Assumptions C01_refines_spec_class_example.
+
+Example C01_refines_spec_incomplete_example :
+  inc_kind [71; 69; 84; 32; 47; 32; 72; 84; 84; 80; 47; 49; 46; 48; 13; 10; 102; 111; 111; 10] = (2, RErr EBadMessage).
+Proof. exact (proj1 ex_incomplete). Qed.
+Print Assumptions C01_refines_spec_incomplete_example.
+
+Example C01_refines_spec_upgraded_example :
+  sdigest (spec limq o_connect st_connect) =
+    (1, [([67; 79; 78; 78; 69; 67; 84], [104; 58; 49], [], [], 33%nat)], [116; 117; 110; 110; 101; 108], None) /\
+  digest (feed limq o_connect init st_connect []) =
+    (ROk [], [([67; 79; 78; 78; 69; 67; 84], [104; 58; 49], [116; 117; 110; 110; 101; 108], [], false, None)]) /\
+  sdigest (spec limq [] st_ws) = (1, [([71; 69; 84], [47; 119], [], [], 69%nat)], [102; 114; 97; 109; 101; 115], None) /\
+  digest (feed limq [] init st_ws []) = (ROk [102; 114; 97; 109; 101; 115], [([71; 69; 84], [47; 119], [], [], true, None)]).
+Proof. exact ex_upgraded. Qed.
+Print Assumptions C01_refines_spec_upgraded_example.
+
+(* Any segmentation whose reads all return normally delivers the messages of the strict reading of
+   the concatenated stream (C03_seg_accept + C01_refines_spec); in particular the strict reading
+   neither rejects that stream nor leaves it undecided. *)
+Theorem C01_refines_spec_any_segmentation : forall lim o segs st a lo, max_queue lim = 0 ->
+  run_segs lim o init segs [] [] = (st, a, ROk lo) ->
+  match spec lim o (concat segs) with
+  | SAccept ms _ => lo = [] /\ idle st /\ delivered ms a
+  | SUpgraded ms rest =>
+    (lo = rest /\ upgraded st = true /\ payload st = None /\ delivered ms a) \/
+    (lo = [] /\ exists p cur old pre last,
+        payload st = Some p /\ pk p = PUntilEof /\ a = cur :: old /\ ms = pre ++ [last] /\
+        delivered pre old /\ r_msg cur = s_msg last /\ r_data cur = rest /\
+        r_eof cur = false /\ r_exc cur = None)
+  | SIncomplete ms _ => lo = [] /\ delivered_upto ms a
+  | SReject _ _ | SAsk _ _ => False
+  end.
+Proof. exact any_segmentation_spec. Qed.
+Print Assumptions C01_refines_spec_any_segmentation.
+
+Example C01_refines_spec_any_segmentation_example :
+  concat st_two_segs = st_two /\
+  digest (run_segs limq [] init st_two_segs [] []) =
+    (ROk [], [([71; 69; 84], [47; 98], [], [], true, None); ([80; 79; 83; 84], [47; 97], body26, [26], true, None)]).
+Proof. exact ex_refines_segs. Qed.
+Print Assumptions C01_refines_spec_any_segmentation_example.
